@@ -10,6 +10,8 @@
   "locked"  a REAL lock: a second connection holds BEGIN EXCLUSIVE on the database file and the store's own
             connections get a 50 ms busy timeout instead of SQLite's 5 s, so every statement fails with the
             genuine "database is locked" error
+  "open"    the database file cannot be opened: every sqlite3.connect of the store raises
+            sqlite3.OperationalError("unable to open database file") (no file descriptors left, directory not accessible, …)
 
 The module object substituted for `sqlite3` inside `nauyaca.security.tofu` delegates everything else to
 the real module.  Nothing is patched outside the `with` block.
@@ -43,6 +45,9 @@ class _Shim(types.ModuleType):
 
     def connect(self, path, *a, **kw):
         shim = self
+        if shim.kind == "open":
+            shim.fired += 1
+            raise real.OperationalError("unable to open database file")
         if shim.kind == "locked":
             kw["timeout"] = 0.05
         conn = real.connect(path, *a, **kw)
